@@ -25,7 +25,9 @@ DIR = {"d1": "plain", "d2": "d'q", "d3": "d%p"}
 def rows_of(hfile):
     try:
         con = sqlite3.connect("file:%s?mode=ro" % hfile, uri=True, timeout=5)
-        rows = [{"id": r[0], "text": r[1]} for r in con.execute("SELECT rowid, inp FROM cicada_history ORDER BY rowid")]
+        # (a stored value that is not text any more - a column with numeric affinity turns `007` into 7 - is shown as it is stored)
+        rows = [{"id": r[0], "text": r[1] if isinstance(r[1], str) else "<%s %r>" % (type(r[1]).__name__, r[1])}
+                for r in con.execute("SELECT rowid, inp FROM cicada_history ORDER BY rowid")]
         con.close()
         return rows
     except sqlite3.Error as e:
@@ -88,6 +90,14 @@ def run_history(args):
                 rc, out, err = sh("history delete " + " ".join(str(x) for x in real))
                 rec.update(ids=real, stderr=err[-300:])
             after = rows_of(hfile)
+            if k == "typed" and o.get("recorded") and len(after) == len(before):
+                # the row of a typed line is written by the interactive shell around the time the prompt returns: on a loaded
+                # machine the table is read again for a moment before the row counts as missing
+                for _ in range(40):
+                    time.sleep(0.1)
+                    after = rows_of(hfile)
+                    if len(after) != len(before):
+                        break
             rec["rows"] = after
             if k in ("add", "typed") and len(after) == len(before) + 1:
                 idmap[nmodel] = after[-1]["id"]
